@@ -335,12 +335,13 @@ def gen_rel(rng, n):
             pairs = zip(S, O) if mode == "elementwise" else ((s, o) for s in S for o in O)
             if all(general_position(s, o) for s, o in pairs):
                 break
-        yield {"mode": mode, "S": S, "O": O}
+        # G12: the image of the configuration under z -> s z (s = 10^k, k in -12..12) has the same answers
+        yield {"mode": mode, "S": S, "O": O, "zoom": (10.0 ** rng.choice([rng.randint(-12, 12), rng.randint(-12, -9), rng.randint(9, 12)])) if rng.random() < 0.5 else 1.0}
 
 
-def build_disks(ds):
-    c = np.array([complex(*d["c"]) for d in ds])
-    r = np.array([d["r"] for d in ds])
+def build_disks(ds, zoom=1.0):
+    c = np.array([complex(*d["c"]) for d in ds]) * zoom
+    r = np.array([d["r"] for d in ds]) * zoom
     base = CP.CP1Disk(c, r)
     comp = base.complement()
     data = np.array([base.proj_data[i] if d["bounded"] else comp.proj_data[i] for i, d in enumerate(ds)])
@@ -348,7 +349,7 @@ def build_disks(ds):
 
 
 def run_rel(inp):
-    S, O = build_disks(inp["S"]), build_disks(inp["O"])
+    S, O = build_disks(inp["S"], inp.get("zoom", 1.0)), build_disks(inp["O"], inp.get("zoom", 1.0))
     s_aff, o_aff = S.center_inside(), O.center_inside()
     sc, sr = S.circle_parameters()
     oc, orad = O.circle_parameters()
@@ -401,10 +402,15 @@ def gen_pt(rng, n):
                 zs.append([[0.0, 0.0], [rng.gauss(0, 1), rng.gauss(0, 1)]])
             elif t < 0.2:
                 zs.append([[rng.gauss(0, 1), rng.gauss(0, 1)], [0.0, 0.0]])
-            else:
+            elif t < 0.6:
                 s = math.exp(rng.uniform(-3, 3))
                 zs.append([[rng.gauss(0, 1), rng.gauss(0, 1)], [rng.gauss(0, s), rng.gauss(0, s)]])
-        yield {"pts": zs}
+            else:
+                # G12: |w| = 10^k, k in -9..9, and overall sizes 10^m of the homogeneous pair
+                w = 10.0 ** rng.randint(-9, 9) * cmath.exp(1j * rng.uniform(0, 2 * math.pi)) * rng.uniform(1, 9)
+                g = 10.0 ** rng.randint(-9, 9) * cmath.exp(1j * rng.uniform(0, 2 * math.pi))
+                zs.append([[g.real, g.imag], [(g * w).real, (g * w).imag]])
+        yield {"pts": zs, "int_affine": [[rng.randint(-5, 5), rng.randint(-5, 5)] for _ in range(3)]}
 
 
 def run_pt(inp):
@@ -428,6 +434,20 @@ def run_pt(inp):
     # non-default option: column vectors
     res["p2s_column_vectors"] = err(np.asarray(CP.projective_to_spherical(p.T, column_vectors=True), float), s.T)
     res["s2p_column_vectors"] = 0.0 if proj_close(np.asarray(CP.spherical_to_projective(s.T, column_vectors=True)).T, p, 1e-9) else 1.0
+    # coordinates of every dtype and container: integer-valued real_affine pairs, the six axis points of the sphere
+    ia = np.array(inp.get("int_affine", [[2, -3]]))
+    want_i = np.array([[2 * x / (x * x + y * y + 1), 2 * y / (x * x + y * y + 1), (x * x + y * y - 1) / (x * x + y * y + 1)] for x, y in ia.astype(float)])
+    axes_ = np.array([[0, 0, 1], [0, 0, -1], [1, 0, 0], [-1, 0, 0], [0, 1, 0], [0, -1, 0]])
+    for lab, conv in (("int64", lambda a: np.asarray(a, np.int64)), ("int32", lambda a: np.asarray(a, np.int32)), ("float32", lambda a: np.asarray(a, np.float32)),
+                      ("float64", lambda a: np.asarray(a, np.float64)), ("list", lambda a: np.asarray(a).tolist()),
+                      ("fortran", lambda a: np.asfortranarray(np.asarray(a, np.float64))), ("view", lambda a: np.repeat(np.asarray(a, np.float64), 2, axis=1)[:, ::2])):
+        try:
+            q_ = CP.CP1Point(conv(ia), coords="real_affine")
+            res["real_affine_" + lab] = err(np.asarray(q_.spherical_coords(), float), want_i) / (1e4 if lab == "float32" else 1.0)
+            q2_ = CP.CP1Point(conv(axes_), coords="spherical")
+            res["spherical_" + lab] = err(np.asarray(q2_.spherical_coords(), float), axes_.astype(float))
+        except Exception as ex:  # noqa: BLE001
+            res["real_affine_" + lab] = float("inf")
     fin = np.array([a != 0 for a, b in p])
     if fin.any():
         aff = (p[fin, 1] / p[fin, 0])
@@ -637,7 +657,7 @@ def gen_rel_oracle(rng, n):
 
 
 def run_rel_oracle(inp):
-    S, O = build_disks(inp["S"]), build_disks(inp["O"])
+    S, O = build_disks(inp["S"], inp.get("zoom", 1.0)), build_disks(inp["O"], inp.get("zoom", 1.0))
     out = {}
     for nm in ("contains", "intersects"):
         try:
